@@ -388,6 +388,14 @@ def corpus():
         sC = mds(seq=SEQ0, dblk=[(b"pcmh", 0, sample(0, 0, 96))], pcmd=fill(96, 77))
         out.append((link_req([("a", sA), ("b", sB), ("c", sC)]), ("corpus", "pcm-zero-tail")))
         out.append((link_req([("b", sB), ("a", sA), ("c", sC)]), ("corpus", "pcm-zero-tail")))
+    # two alignment gaps (a sample that does not fit the rest of its bank starts the next one), the
+    # earlier gap the smaller, then small samples that refill the gaps: each must land in its own place
+    big = [0x7000, 0x6000, 0x3000, 0x100, 0x100, 0x100]
+    out.append((link_req([("g%d" % i, mds(seq=SEQ0, dblk=[(b"pcmh", 0, sample(0, 0, n))], pcmd=fill(n, 10 + i))) for i, n in enumerate(big)]),
+                ("corpus", "pcm-two-gaps")))
+    big = [0x7f00, 0x7000, 0x4000, 0x80, 0x800, 0x80, 0x1000]
+    out.append((link_req([("h%d" % i, mds(seq=SEQ0, dblk=[(b"pcmh", 0, sample(0, 0, n))], pcmd=fill(n, 30 + i))) for i, n in enumerate(big)]),
+                ("corpus", "pcm-two-gaps")))
     # the same sample bytes at two rates: two headers
     out.append((link_req([("a", mds(seq=SEQ0, dblk=[(b"pcmh", 0, sample(0, 0, 32, rate=8000))], pcmd=fill(32, 9))),
                           ("b", mds(seq=SEQ0, dblk=[(b"pcmh", 0, sample(0, 0, 32, rate=16000))], pcmd=fill(32, 9)))]), ("corpus", "pcm-same-data-two-rates")))
